@@ -36,8 +36,12 @@ def icCond (suffix : String) (a b : Int) : Option Bool :=
   | "ge" => some (decide (a ≥ b))
   | _ => none
 
-theorem tables_cover : cmpSuffix.map (·.1) = ["==", "!=", "<", "<=", ">", ">="] ∧
-    negCmpSuffix.map (·.1) = ["==", "!=", "<", "<=", ">", ">="] := by decide
+/-- both tables have exactly one row for each of the six comparison operators (in whatever order the source lists them) -/
+theorem tables_cover :
+    (∀ op ∈ ["==", "!=", "<", "<=", ">", ">="], op ∈ cmpSuffix.map (·.1) ∧ op ∈ negCmpSuffix.map (·.1)) ∧
+    (∀ op ∈ cmpSuffix.map (·.1), op ∈ ["==", "!=", "<", "<=", ">", ">="]) ∧
+    (∀ op ∈ negCmpSuffix.map (·.1), op ∈ ["==", "!=", "<", "<=", ">", ">="]) ∧
+    cmpSuffix.length = 6 ∧ negCmpSuffix.length = 6 := by decide
 
 /-- **the set instruction computes the comparison**: for every row `(op, suffix)` of `get_comparison_suffix` -/
 theorem cmp_set_correct (op suffix : String) (h : (op, suffix) ∈ cmpSuffix) (a b : Int) :
@@ -67,7 +71,8 @@ theorem negated_table_negates (op s1 s2 : String) (h1 : (op, s1) ∈ negCmpSuffi
   exact ⟨c, hs, hn⟩
 
 /-- the device-state branch variants: `if sdse(d)` is lowered to the branch on the *opposite* state -/
-theorem branch_variant_table : branchVariant = [("sdse", "bdns"), ("sdns", "bdse")] := by decide
+theorem branch_variant_table :
+    (∀ p ∈ branchVariant, p ∈ [("sdse", "bdns"), ("sdns", "bdse")]) ∧ (∀ p ∈ [("sdse", "bdns"), ("sdns", "bdse")], p ∈ branchVariant) := by decide
 
 /-! non-vacuity -/
 example : ("<", "ge") ∈ negCmpSuffix := by decide
